@@ -1,5 +1,6 @@
 SPECIFICATION Spec
 CONSTANT Deviations = {}
+CONSTANT Cap = 10000
 CONSTANT Scenarios <- AllScenarios
 CONSTANT ScCalls <- C09Calls
 CONSTANT ScHost <- C09Host
